@@ -742,6 +742,7 @@ pub fn check_case(door: Door, b: &[u8], case: &mut Case) {
             58 => rd_pair!(case, "Icmpv6Header::read", b, Icmpv6Header, multi_s),
             _ => {}
         },
+        Door::TcpOpts | Door::NdpOpts => {}
     }
 }
 
